@@ -1,6 +1,7 @@
 import XtModel.Model.Wire
 import XtModel.Model.Encoding
 import XtModel.Model.Input
+import XtModel.Model.Detect
 import XtModel.Model.TomlOrder
 
 /-!
@@ -108,6 +109,31 @@ def handle (fs : List String) : String :=
     | _, _, _, _ => "bad-case"
   | _ => "bad-case"
 
+
+/-! ### Engines `detectlist`, `mpmarker`: the decision list and the MessagePack first-byte test -/
+
+def parseTrial : String → Option Detect.Trial
+  | "match" => some .matched
+  | "nomatch" => some .noMatch
+  | "ioerr" => some .ioErr
+  | _ => none
+
+def detectedTok : Detect.Detected → String
+  | .fmt .msgpack => "msgpack" | .fmt .json => "json" | .fmt .yaml => "yaml" | .fmt .toml => "toml"
+  | .none => "none" | .ioErr => "ioerr"
+
+def detectEng (fs : List String) : String :=
+  match fs with
+  | "detectlist" :: m :: j :: y :: t :: _ =>   -- further fields (supply mode, input bytes) are for replay only
+    match parseTrial m, parseTrial j, parseTrial y, parseTrial t with
+    | some m, some j, some y, some t => detectedTok (Detect.detectFormat m j y t)
+    | _, _, _, _ => "bad-case"
+  | ["mpmarker", b] =>
+    match b.toNat? with
+    | some b => if Detect.markerTest b then "coll" else "other"
+    | none => "bad-case"
+  | _ => "bad-case"
+
 /-! ### tomlorder: `s<tag>` | `a[x;y]` | `t{k=x;k=y}` -/
 open Xt.TomlOrder in
 partial def renderTV : TV → String
@@ -156,6 +182,7 @@ def answer (fs : List String) : String :=
   match fs with
   | "encdetect" :: _ | "reencode" :: _ | "reencstream" :: _ => encoding fs
   | "handle" :: _ => handle fs
+  | "detectlist" :: _ | "mpmarker" :: _ => detectEng fs
   | "tomlorder" :: _ => tomlorder fs
   | _ => "bad-engine"
 
